@@ -549,9 +549,31 @@ def _merge_seeded_generators(stmts: List[ast.stmt]) -> List[ast.stmt]:
     return out
 
 
+def _merge_cond_temps(fn, stmts: List[ast.stmt]) -> List[ast.stmt]:
+    """'c = E' directly followed by 'if c:' (c used nowhere else)  ->  'if E:'  (E is evaluated at the same point, once)"""
+    out: List[ast.stmt] = []
+    i = 0
+    while i < len(stmts):
+        a = stmts[i]
+        b = stmts[i + 1] if i + 1 < len(stmts) else None
+        if isinstance(a, ast.Assign) and len(a.targets) == 1 and isinstance(a.targets[0], ast.Name) and isinstance(b, ast.If) and \
+                isinstance(b.test, ast.Name) and b.test.id == a.targets[0].id:
+            tmp = a.targets[0].id
+            uses = sum(isinstance(n, ast.Name) and n.id == tmp for n in ast.walk(fn))
+            if uses == 2:
+                b.test = a.value
+                out.append(b)
+                i += 2
+                continue
+        out.append(a)
+        i += 1
+    return out
+
+
 def _block(fn, stmts: List[ast.stmt]) -> List[ast.stmt]:
     out: List[ast.stmt] = []
     stmts = _merge_comp_loops(fn, stmts)
+    stmts = _merge_cond_temps(fn, stmts)
     stmts = _merge_seeded_generators(stmts)
     for s in stmts:
         if isinstance(s, (ast.FunctionDef, ast.AsyncFunctionDef)):
